@@ -26,19 +26,6 @@ var _ = token.NoPos
 // instead of the timeout. That is sound only where the worker's send-less exits can be reached solely because the
 // spawner itself has already left (its deferred cancel of a cancel-only context): then nobody is receiving any more.
 
-// ctxCheckOrigin: if cond (known to hold with the given truth) says "this context is over", returns the context value.
-func ctxOverCondition(ec edgeCond) ssa.Value {
-	x, nonNilOnTrue, isNil := nilCheck(ec.Cond)
-	if !isNil || nonNilOnTrue != ec.Truth {
-		return nil
-	}
-	call, ok := x.(*ssa.Call)
-	if !ok || !call.Call.IsInvoke() || call.Call.Method.Name() != "Err" || !isContextType(call.Call.Value.Type()) {
-		return nil
-	}
-	return call.Call.Value
-}
-
 func checkClosedResultZero(c *Ctx, r *Report, rule string) {
 	n := 0
 	for _, wi := range collectWorkers(c) {
@@ -180,37 +167,6 @@ func checkClosedResultZero(c *Ctx, r *Report, rule string) {
 	if n == 0 {
 		r.OK(rule, "no worker hands a non-pointer result over a channel it may close without sending", "-", "")
 	}
-}
-
-// selectDoneGoverned: blk is the body of a `case <-ctx.Done()` of a select whose context is a cancel-only context
-// made in owner.
-func selectDoneGoverned(blk *ssa.BasicBlock, owner *ssa.Function) bool {
-	fn := blk.Parent()
-	for _, b := range fn.Blocks {
-		for _, in := range b.Instrs {
-			sel, ok := in.(*ssa.Select)
-			if !ok {
-				continue
-			}
-			k, ok := selectCaseOf(blk, sel)
-			if !ok || k < 0 || k >= len(sel.States) {
-				continue
-			}
-			call, ok := sel.States[k].Chan.(*ssa.Call)
-			if !ok || !call.Call.IsInvoke() || call.Call.Method.Name() != "Done" || !isContextType(call.Call.Value.Type()) {
-				continue
-			}
-			kind, src := ctxOrigin(call.Call.Value, 0)
-			mk, _ := src.(*ssa.Call)
-			if kind != "with-timeout" || mk == nil {
-				continue
-			}
-			if o := CalleeObj(mk); o != nil && o.Name() == "WithCancel" && mk.Parent() == owner {
-				return true
-			}
-		}
-	}
-	return false
 }
 
 // ---- C02: the end-of-message patterns match the RFC 6242 delimiters and nothing shorter ---------------------------
